@@ -1,6 +1,6 @@
 (* Property theorems for C03 -- statements only; proofs are `exact` of lemmas. *)
 From Coq Require Import ZArith List Bool Lia QArith.
-From GD Require Import C04.Bytes C03.Write C03.WriteProofs C03.Sie C03.SieProofs C03.SieRefine.
+From GD Require Import C04.Bytes C03.Write C03.WriteProofs C03.Sie C03.SieProofs C03.SieRefine C03.Text.
 Import ListNotations.
 Local Open Scope nat_scope.
 
@@ -77,6 +77,16 @@ Theorem sie_incore_compression_correct : forall prev p data i e cur rest,
     sie_expand_from prev (rev ((p + i + Z.of_nat (length data) - 1, cur') :: rest')%Z)
     = sie_expand_from prev (rev ((p + i - 1, cur) :: rest)%Z) ++ data.
 Proof. exact compress_loop_spec. Qed.
+
+(* ---- text encoding, at the level of the bytes of the file: appends, gaps and overwrites by lines of the
+   same width (the region the property claims) leave exactly the rendering of the flat array ---- *)
+Theorem text_write_refines_same_width : forall zero_line ls p d,
+  d <> [] ->
+  let padded := ls ++ repeat zero_line (p - length ls) in
+  let c := covered padded p d in
+  same_widths c (firstn (length c) d) ->
+  text_put_bytes zero_line ls p d = render (array_write zero_line ls p d).
+Proof. exact text_put_same_width. Qed.
 
 (* ---- derived writes ---- *)
 (* BIT/SBIT read-modify-write, all 64-bit words: bits of the field take the value, all others are kept *)
